@@ -1,18 +1,18 @@
 \* exhaustive: I => P (Conforms), repaired code; one grouped remedy, window-length changes
 CONSTANTS
-  Remedy = {"r1"}
-  Group = {"a", "u"}
+  Remedy = {"r1", "r2"}
+  Group = {"a"}
   W0 <- cW
-  WChoices = {2, 4, 6}
+  WChoices = {2, 4}
   Allowed <- cAllowed
   Pct <- cPct
   DefBehav <- cDefBehav
   DefPct <- cDefPct
-  MaxNow = 12
-  Steps = {1, 2, 3}
+  MaxNow = 6
+  Steps = {1, 2}
   StrictAfter = FALSE
   StaleWindow = FALSE
-  MaxSetW = 3
+  MaxSetW = 1
 SPECIFICATION IPSpec
 PROPERTIES Conforms Isolation
 INVARIANT PerWindow
